@@ -81,8 +81,8 @@ def rand_spec(rng, min_r=1, max_r=4, min_c=1, max_c=4, values=None, density=None
 
 def rand_layout(rng, r, c):
     lay = [rng.choice(INITIAL)]
-    for _ in range(rng.choice([0, 0, 1, 1, 2])):
-        s = rng.choice(STEPS)
+    for _ in range(rng.choice([0, 1, 1, 2, 2])):
+        s = rng.choice(STEPS + ['via_sort_obs', 'via_sort_samp', 'via_sort_samp'])
         if s == 'via_sort_obs':
             p = list(range(r)); rng.shuffle(p); lay.append([s, p])
         elif s == 'via_sort_samp':
